@@ -1,4 +1,6 @@
 """C16 — the HTTP API answers every request with the documented envelope."""
+import os
+
 import common as C
 import httpgen as G
 
@@ -6,11 +8,47 @@ TRANSLATOR_TABLES = (("RouteTable", "routes"),)      # ReadSets / RespFields bel
 PROBE = ("http", "http", "TestVerifProbeHttp")
 
 
+def observe_routes(chk):
+    """[(method, pattern, handler)] of the documented registrations the REAL router holds (router.Lookup through the probe)."""
+    binp, err = C.build_probe(PROBE[1])
+    if binp is None:
+        return []
+    work = chk.work
+    cpath, opath = os.path.join(work, "routes.txt"), os.path.join(work, "routes.out")
+    with open(cpath, "w") as f:
+        f.write("routes %d %s\n" % (len(G.ROUTES), " ".join("%s %s" % (m, G.hx(p)) for m, p in G.ROUTES)))
+    if os.path.exists(opath):
+        os.remove(opath)
+    rc, _ = C.run_probe(binp, PROBE[2], cpath, opath, timeout=120)
+    if rc != 0 or not os.path.exists(opath):
+        return []
+    f = open(opath).read().split()
+    if not f or f[0] != "ROUTES":
+        return []
+    return [(f[i], G.unhx(f[i + 1]).decode(), f[i + 2]) for i in range(1, len(f) - 2, 3) if f[i + 2] != "-"]
+
+
 def pre(chk):
     """Regenerate coq/gen/RouteTable.v (route table, router options, per-handler request types) from /repo before the
-    proof obligations are checked."""
-    for name, mode in TRANSLATOR_TABLES:
-        C.write_gen(name, C.run_translator("http", [mode]))
+    proof obligations are checked.  The translator resolves direct registrations (router.GET(...), router.Handle(...))
+    and table-driven ones (a literal table of {method, pattern, handler} registered in a range loop).  Registrations it
+    cannot resolve statically are taken from what the REAL router holds for the documented patterns (router.Lookup
+    through the probe) before the table obligation is allowed to fail."""
+    out = C.run_translator("http", ["routes"])
+    if "RtUnknown" in out:
+        try:
+            obs = observe_routes(chk)
+        except Exception as e:      # the probe not compiling is reported by run(); the static table stands
+            obs = []
+            chk.notes.append("route observation failed: %s" % e)
+        if obs:
+            out2 = C.run_translator("http", ["routes", "observed"] + [x for r in obs for x in r])
+            if out2.count("RtUnknown") < out.count("RtUnknown"):
+                chk.notes.append("the translator could not resolve every route registration statically; %d registrations were "
+                                 "read off the real router with router.Lookup on the documented patterns (reg = \"observed\"); "
+                                 "an undocumented extra registration would not be seen this way" % out2.count('"observed"'))
+                out = out2
+    C.write_gen("RouteTable", out)
 
 
 def project(line):
